@@ -68,7 +68,7 @@ Next == /\ ~done /\ done' = TRUE /\ UNCHANGED tid
         /\ LET f == Files[tid]  b == f.bytes IN
            IF ~HasIdent(b) THEN PrintT(ToJson([t |-> f.t, verdict |-> "NotElf"]))
            ELSE LET R == Report(b)  Q == SeqOfSet(QueryAddrs(R)) IN
-                PrintT(ToJson([t |-> f.t, verdict |-> Verdict(R, ClsOf(b), f.ref), cls |-> ClsOf(b), ord |-> OrdOf(b),
+                PrintT(ToJson([t |-> f.t, verdict |-> IF f.hasref THEN Verdict(R, ClsOf(b), f.ref) ELSE "noref", cls |-> ClsOf(b), ord |-> OrdOf(b),
                                expect |-> R, queries |-> Tup([k \in 1..Len(Q) |-> Query(R, Q[k])])]))
 Spec == Init /\ [][Next]_vars
 =============================================================================
